@@ -1,11 +1,19 @@
 ----------------------------- MODULE Trace_Norm -----------------------------
 (* Trace validation for C13: every line recorded from the real BinNormalisation classes by                *)
 (* harness/c13_norm.cxx must be explained by Norm.tla.  The object under test and its set-up state are    *)
-(* state (lines Obj / SetUp / SetCalib); every call line carries its complete input and output, so the    *)
-(* lines are judged independently and the indices of unexplained lines are collected in `bad' (so that    *)
-(* known findings can be told from new violations).                                                       *)
+(* state (lines Obj / SetUp / SetCalib / Mod); every call line carries its complete input and output, so  *)
+(* the lines are judged independently and the indices of unexplained lines are collected in `bad' (so     *)
+(* that known findings can be told from new violations).                                                  *)
+(* Re-use histories: a Mod line says that the inputs of the SAME object were changed through its public   *)
+(* API (factor data, component factors in place, calibration, members of a chain) and carries the object  *)
+(* as its inputs describe it NOW.  From the next set_up on the factor is that of the current inputs;      *)
+(* between the change and that set_up (`stale') the classes may serve the previous inputs (tables built   *)
+(* by set_up) or the current ones (inputs read at every call) - unless the API cleared the set-up flag    *)
+(* (`resets'), in which case an error is required.                                                        *)
 EXTENDS Norm, TraceLib
-VARIABLES l, obj, su, att, bad, stats
+VARIABLES l, obj, su, att, bad, stats,
+          prev,      \* the object as described by its inputs before the last Mod line
+          stale      \* TRUE between a Mod line and the next SetUp line
 
 NoObj == [cls |-> "Trivial"]
 NoAtt == [cfg |-> [proj |-> "none"], imgs |-> <<>>, tabs |-> <<>>]
@@ -27,21 +35,24 @@ TolFor(o) == OpTol * Members(o)
 
 \* the object a call line addresses: the state's object, or one member of it (ChainedBinNormalisation::
 \* apply_only_first / apply_only_second / undo_only_...; the members are set up together with the chain)
-Target(r) == IF ~Has(r, "part") \/ r.part = "all" THEN obj
-             ELSE IF obj.cls # "Chain" THEN [cls |-> "Unknown"]
-             ELSE IF r.part = "first" THEN obj.first ELSE obj.second
+TargetOf(r, o) == IF ~Has(r, "part") \/ r.part = "all" THEN o
+                  ELSE IF o.cls # "Chain" THEN [cls |-> "Unknown"]
+                  ELSE IF r.part = "first" THEN o.first ELSE o.second
+Target(r) == TargetOf(r, obj)
+\* a judgement that may be made with the current inputs or, while stale, with the previous ones
+Either(P(_)) == P(obj) \/ (stale /\ P(prev))
 
 \* --- exact classes: related viewgrams
-RVValuesOk(r) ==
+RVValuesOk(r, o) ==
   /\ ShapeVg(r)
   /\ \A i \in 1..Len(r.vg) : \A a \in 1..Len(r.in[i]) : \A t \in 1..Len(r.in[i][a]) :
-       LET e == Eff(Target(r), ElemBin(r.G, r.vg, i, a, t)) IN
+       LET e == Eff(TargetOf(r, o), ElemBin(r.G, r.vg, i, a, t)) IN
        IF r.op = "undo" THEN UndoOk(r.in[i][a][t], r.out[i][a][t], e)
        ELSE r.op = "apply" /\ ApplyOk(r.in[i][a][t], r.out[i][a][t], e)
 \* --- exact classes: whole data set ("whether called on related viewgrams with any symmetries or on a whole data set")
-WholeValuesOk(r) ==
+WholeValuesOk(r, o) ==
   \A b \in BinsOf(r.G) :
-     LET e == Eff(Target(r), b) IN
+     LET e == Eff(TargetOf(r, o), b) IN
      IF r.op = "undo" THEN UndoOk(At5(r.in, r.G, b), At5(r.out, r.G, b), e)
      ELSE r.op = "apply" /\ ApplyOk(At5(r.in, r.G, b), At5(r.out, r.G, b), e)
 \* --- objects with an attenuation member: fixed-point logarithms
@@ -50,14 +61,14 @@ AttIds(o) == CASE o.cls = "Att" -> {o.img}
                [] o.cls = "Chain" -> AttIds(o.first) \cup AttIds(o.second)
                [] OTHER -> {}
 AttReady(o) == att.cfg.proj # "none" /\ (\A i \in AttIds(o) : i <= Len(att.tabs) /\ att.tabs[i] # <<>>)
-LgOk(r, din, dout, b) ==
-  LET e == EffLg(obj, b, att.tabs, att.cfg.G) IN
-  IF r.op = "undo" THEN Within(dout, din + e, TolFor(obj)) ELSE r.op = "apply" /\ Within(dout, din - e, TolFor(obj))
-RVFValuesOk(r) ==
-  /\ ShapeVg(r)
+LgOk(r, o, din, dout, b) ==
+  LET e == EffLg(o, b, att.tabs, att.cfg.G) IN
+  IF r.op = "undo" THEN Within(dout, din + e, TolFor(o)) ELSE r.op = "apply" /\ Within(dout, din - e, TolFor(o))
+RVFValuesOk(r, o) ==
+  /\ AttReady(o) /\ ShapeVg(r)
   /\ \A i \in 1..Len(r.vg) : \A a \in 1..Len(r.in[i]) : \A t \in 1..Len(r.in[i][a]) :
-       LgOk(r, r.in[i][a][t], r.out[i][a][t], ElemBin(r.G, r.vg, i, a, t))
-WholeFValuesOk(r) == \A b \in BinsOf(r.G) : LgOk(r, At5(r.in, r.G, b), At5(r.out, r.G, b), b)
+       LgOk(r, o, r.in[i][a][t], r.out[i][a][t], ElemBin(r.G, r.vg, i, a, t))
+WholeFValuesOk(r, o) == AttReady(o) /\ \A b \in BinsOf(r.G) : LgOk(r, o, At5(r.in, r.G, b), At5(r.out, r.G, b), b)
 
 CallOk(r, whole, valuesOk) ==
   LET mode == ErrMode(Target(r), su, r.G, whole) IN
@@ -112,14 +123,16 @@ Explains(r) ==
     [] r.e = "Obj" -> TRUE
     [] r.e = "SetUp" -> GeomOk(r.G) /\ SetUpOutcomeOk(obj, r.G, r.ok, r.err)
     [] r.e = "SetCalib" -> obj.cls = "Cal"
-    [] r.e = "Triv" -> ~r.err /\ TrivialAnswerOk(obj, r.val)
+    [] r.e = "Mod" -> obj.cls = r.obj.cls          \* the same object with other inputs
+    [] r.e = "Triv" -> ~r.err /\ LET P(o) == TrivialAnswerOk(o, r.val) IN Either(P)
     [] r.e = "Eff" -> /\ su.st = "ok" /\ GeomEq(su.g, r.G)
-                      /\ IF Reports(obj) THEN ~r.err /\ \A b \in BinsOf(r.G) : At5(r.effs, r.G, b) = Eff(obj, b)
+                      /\ IF Reports(obj)
+                         THEN ~r.err /\ LET P(o) == \A b \in BinsOf(r.G) : At5(r.effs, r.G, b) = Eff(o, b) IN Either(P)
                          ELSE r.err
-    [] r.e = "RV" -> ~HasAtt(Target(r)) /\ CallOk(r, FALSE, RVValuesOk(r))
-    [] r.e = "Whole" -> ~HasAtt(Target(r)) /\ CallOk(r, TRUE, WholeValuesOk(r))
-    [] r.e = "RVF" -> Target(r) = obj /\ CallOk(r, FALSE, AttReady(obj) /\ RVFValuesOk(r))
-    [] r.e = "WholeF" -> Target(r) = obj /\ CallOk(r, TRUE, AttReady(obj) /\ WholeFValuesOk(r))
+    [] r.e = "RV" -> ~HasAtt(Target(r)) /\ LET P(o) == RVValuesOk(r, o) IN CallOk(r, FALSE, Either(P))
+    [] r.e = "Whole" -> ~HasAtt(Target(r)) /\ LET P(o) == WholeValuesOk(r, o) IN CallOk(r, TRUE, Either(P))
+    [] r.e = "RVF" -> Target(r) = obj /\ LET P(o) == RVFValuesOk(r, o) IN CallOk(r, FALSE, Either(P))
+    [] r.e = "WholeF" -> Target(r) = obj /\ LET P(o) == WholeFValuesOk(r, o) IN CallOk(r, TRUE, Either(P))
     [] r.e = "AttGeom" -> GeomOk(r.G) /\ Len(r.s8) = r.G.maxTang - r.G.minTang + 1 /\ Len(r.phi16) = r.G.views
     [] r.e = "AttImg" -> r.img = Len(att.imgs) + 1
     [] r.e = "AttTab" -> AttTabOk(r)
@@ -154,17 +167,23 @@ Classify(r) ==
   THEN "C13-compsetup"
   ELSE "new"
 
-Init == l = 1 /\ obj = NoObj /\ su = NotSetUp /\ att = NoAtt /\ bad = <<>> /\ stats = [chords |-> 0, elems |-> 0]
+Init == /\ l = 1 /\ obj = NoObj /\ su = NotSetUp /\ att = NoAtt /\ bad = <<>> /\ stats = [chords |-> 0, elems |-> 0]
+        /\ prev = NoObj /\ stale = FALSE
 Next ==
   /\ l <= Len(TraceLog)
   /\ LET r == TraceLog[l]
          okr == Explains(r)
          cls == IF okr THEN "ok" ELSE Classify(r) IN
-     /\ obj' = CASE r.e = "Obj" -> r.obj
+     /\ obj' = CASE r.e \in {"Obj", "Mod"} -> r.obj
                  [] r.e = "Config" -> NoObj
                  [] r.e = "SetCalib" /\ obj.cls = "Cal" -> [obj EXCEPT !.calib = r.calib]
                  [] OTHER -> obj
+     /\ prev' = IF r.e = "Mod" THEN obj ELSE prev
+     /\ stale' = CASE r.e = "Mod" -> TRUE
+                   [] r.e \in {"Obj", "Config", "SetUp"} -> FALSE
+                   [] OTHER -> stale
      /\ su' = CASE r.e \in {"Obj", "Config", "SetCalib"} -> NotSetUp
+                [] r.e = "Mod" /\ r.resets -> NotSetUp
                 [] r.e = "SetUp" -> IF r.ok /\ ~r.err THEN SetUpWith(r.G) ELSE SetUpFailed
                 [] OTHER -> su
      /\ att' = CASE r.e = "Config" -> NoAtt
@@ -179,7 +198,7 @@ Next ==
                ELSE IF cls = "new" THEN (IF Len(SelectSeq(bad, LAMBDA x : x[2] = "new")) < 500 THEN Append(bad, <<l, cls>>) ELSE bad)
                ELSE (IF Len(SelectSeq(bad, LAMBDA x : x[2] = cls)) < 20 THEN Append(bad, <<l, cls>>) ELSE bad)
   /\ l' = l + 1
-Spec == Init /\ [][Next]_<<l, obj, su, att, bad, stats>>
+Spec == Init /\ [][Next]_<<l, obj, su, att, bad, stats, prev, stale>>
 
 \* evaluated in the final state only (no successor): prints the unexplained lines and the vacuity counters
 Done == l > Len(TraceLog) => (PrintT(<<"STATS", stats.chords>>) /\ (bad = <<>> \/ PrintT(<<"UNEXPLAINED", bad>>)))
